@@ -193,6 +193,11 @@ func checkC01(c *CaseC01, fl *Fails) {
 }
 
 func sweepC01(tier string, emit func(*CaseC01)) {
+	emit(bigListC01(66000, 20, 20))
+	if tier != "quick" {
+		emit(bigListC01(140000, 35, 0))
+		emit(bigListC01(1100, 7, 30))
+	}
 	lons := []float64{-180, 180, math.Nextafter(180, 0), math.Nextafter(-180, 0), 0, math.Copysign(0, -1), -90, 90, 139.767125, -5e-324, 45, math.Nextafter(45, 0)}
 	lats := []float64{latLimit, -latLimit, 0, 1e-10, -1e-10, 35.681236, -66.51326044311186, 85.05}
 	alts := []float64{0, math.Copysign(0, -1), -0.5, -1, 1, altLimit, -altLimit, math.Nextafter(-altLimit, 0), -5e-324, 16777216, -16777216, math.Nextafter(0.5, 0), -1024.25}
@@ -215,6 +220,19 @@ func sweepC01(tier string, emit func(*CaseC01)) {
 	}
 }
 
+// bigListC01: a long list in which the first point recurs after n pairwise different latitudes (size thresholds,
+// per-call memo tables with eviction).
+func bigListC01(n int, h, v int64) *CaseC01 {
+	c := &CaseC01{H: h, V: v}
+	a := Pt{F64(139.767125), F64(35.681236), F64(-12.5)}
+	c.Pts = append(c.Pts, a)
+	for i := 0; i < n; i++ {
+		c.Pts = append(c.Pts, Pt{F64(-179.5 + 359*float64(i)/float64(n)), F64(-84.9 + 169.8*float64(i)/float64(n)), F64(float64(i%4001) - 2000.25)})
+	}
+	c.Pts = append(c.Pts, a, Pt{F64(-45.25), F64(35.681236), F64(7)}, a)
+	return c
+}
+
 func init() {
 	register(PropT[CaseC01]{
 		ID:   "C01",
@@ -228,9 +246,9 @@ func init() {
 		Gen: genC01, Check: checkC01, Classify: classifyC01, Sweep: sweepC01,
 		SweepScopes: func(tier string) []string {
 			if tier == "quick" {
-				return []string{"one third of the 36x36 zoom pairs (plus all h=v) x 25 fixed edge points"}
+				return []string{"one third of the 36x36 zoom pairs (plus all h=v) x 25 fixed edge points", "one list of 66 004 points in which a point recurs after 66 000 different latitudes"}
 			}
-			return []string{"all 36x36 zoom pairs x 25 fixed edge points (exhaustive over the zoom pairs)"}
+			return []string{"all 36x36 zoom pairs x 25 fixed edge points (exhaustive over the zoom pairs)", "lists of 1 104, 66 004 and 140 004 points in which a point recurs after that many different latitudes"}
 		},
 	})
 }
